@@ -77,6 +77,18 @@ func trees(tier string) []*ukit.Spec {
 		}
 	}
 	out = append(out, chainTrees()...)
+	// references below a disabled property (disabled before anything is linked, as the builders and a loaded
+	// description do it): a disabled property rejects values, its type is still part of the schema
+	for _, ns := range nss {
+		for _, pos := range []string{"prop", "list"} {
+			root := obj("Root", "outer-root",
+				ukit.Prop{Name: "ra", Type: ref("A", "")},
+				ukit.Prop{Name: "off", Type: wrap(pos, ref("A", ns)), Disabled: true},
+				ukit.Prop{Name: "offb", Type: ref("B", "n1"), Disabled: true, DisabledNoReason: true},
+			)
+			out = append(out, &ukit.Spec{Kind: ukit.KScope, Root: "Root", Objects: []*ukit.Spec{root, obj("A", "outer-A"), obj("B", "outer-B")}})
+		}
+	}
 	return out
 }
 
